@@ -1498,7 +1498,9 @@ func FunExpr(query *Query, current Map, expr *sqlparser.FuncExpr, opts ...ExprOp
 						asyncErr = recovered(r)
 					}
 				}()
+				verifPoint("fun.bg.start")
 				rs, asyncErr = function(query, current, nil, slice)
+				verifPoint("fun.bg.done")
 			}()
 			// the outcome is only known once the goroutine has finished;
 			// post-processors run after the wait group has been awaited
@@ -1524,7 +1526,9 @@ func FunExpr(query *Query, current Map, expr *sqlparser.FuncExpr, opts ...ExprOp
 						}
 					}
 				}()
+				verifPoint("fun.bg.start")
 				_, err := function(query, current, nil, slice)
+				verifPoint("fun.bg.done")
 				if err != nil {
 					if query.options.errors != nil {
 						query.options.errors(err)
@@ -1552,7 +1556,9 @@ func FunExpr(query *Query, current Map, expr *sqlparser.FuncExpr, opts ...ExprOp
 						}
 					}
 				}()
+				verifPoint("fun.bg.start")
 				_, err := function(query, current, nil, slice)
+				verifPoint("fun.bg.done")
 				if err != nil {
 					if query.options.errors != nil {
 						query.options.errors(err)
@@ -1969,6 +1975,7 @@ func (query *Query) execAndPostProcess() (result any, err error) {
 		return nil, err
 	}
 	query.wg.Wait()
+	verifPoint("exec.afterWait")
 	for _, postProcessor := range query.postProcessors {
 		err := postProcessor()
 		if err != nil {
